@@ -1,10 +1,11 @@
 import SudsModel.Lemmas.Builtin2
+import SudsModel.Lemmas.DateTime
 /-!
 # C06 — XSD built-in values convert exactly and stay lexically valid
 
 Model: `SudsModel/Xsd/Builtin.lean`. Lemmas: `SudsModel/Lemmas/Builtin0..2.lean`.
 Python's `int()/str()/float()/repr()/Decimal()`, `datetime` construction and `isoformat` are runtime
-(trusted; the model's versions are checked by the correspondence).
+(trusted; the model's versions - `isoDate`, `isoTime`, `isoDateTime` - are checked by the correspondence).
 -/
 namespace Suds.Props.C06
 open Suds.Xsd Suds.Gen
@@ -102,6 +103,34 @@ theorem hour24_rejected : parseDateTime "2000-01-01T24:00:00".toList = .error .v
 
 /-- D20: a date with an impossible timezone indicator still yields the date. -/
 theorem date_tz_not_validated : parseDate "2000-01-01+99:00".toList = .ok ⟨2000, 1, 1⟩ := by decide
+
+/-! ### what is sent reads back as the same value -/
+
+/-- **xsd:date round trip**: the text `date.isoformat()` produces (model `isoDate`: zero-padded
+`YYYY-MM-DD`) is parsed back to the same date, for every valid date (years 1..9999). -/
+theorem date_roundtrip (d : Date) (hv : d.valid = true) : parseDate (isoDate d) = .ok d :=
+  Suds.Xsd.date_roundtrip d hv
+
+/-- **xsd:time round trip**: every valid time of day (microseconds included or absent) with no
+timezone, UTC, or any fixed offset below 24 hours reads back as itself; an offset of zero minutes
+denotes UTC (`normTz`). -/
+theorem time_roundtrip (t : Time) (tz : Tz) (hv : t.valid = true) (htz : TzOK tz) :
+    parseTime (isoTime t tz) = .ok (t, normTz tz) :=
+  Suds.Xsd.time_roundtrip t tz hv htz
+
+/-- **xsd:dateTime round trip**: every valid date, time of day and timezone. -/
+theorem datetime_roundtrip (d : Date) (t : Time) (tz : Tz) (hd : d.valid = true) (ht : t.valid = true)
+    (htz : TzOK tz) : parseDateTime (isoDateTime d t tz) = .ok (d, t, normTz tz) :=
+  Suds.Xsd.datetime_roundtrip d t tz hd ht htz
+
+/-- The digits written for a number denote it, whatever the padding. -/
+theorem padded_digits_denote (n w : Nat) : natOf (pad n w) = n ∧ ∀ c ∈ pad n w, isDigit c = true :=
+  ⟨natOf_pad n w, digits_pad n w⟩
+
+/-- the hypotheses are satisfiable (a leap day, the last microsecond, a negative half-hour offset) -/
+example : (⟨2000, 2, 29⟩ : Date).valid = true ∧ (⟨23, 59, 59, 999999⟩ : Time).valid = true ∧ TzOK (.fixed (-330)) := by
+  refine ⟨by decide, by decide, ?_⟩
+  simp [TzOK]
 
 /-! ### Non-vacuity / samples -/
 
